@@ -67,6 +67,12 @@ DateStr(t) ==
     [] t = 18 -> "19720807" [] t = 19 -> "19721019"
     [] OTHER  -> "????????"
 
+\* ------------------------------------------------------------------ address spellings
+\* Messages carry addresses as STRINGS; the state stores address BYTES.  "A1" is the
+\* all-upper-case bech32 spelling of account a1's address: a valid spelling of the same
+\* account and a different string.  Acct maps a spelling to the account.
+Acct(o) == CASE o = "A1" -> "a1" [] o = "A2" -> "a2" [] o = "A3" -> "a3" [] o = "A4" -> "a4" [] OTHER -> o
+
 \* optional timestamp
 NoTime == [set |-> FALSE, t |-> 0]
 SomeTime(t) == [set |-> TRUE, t |-> t]
